@@ -43,6 +43,7 @@ from .core import (
     ConnectionNotEstablishedAPIError,
     HandshakeAPIError,
     InvalidAuthAPIError,
+    InvalidEncryptionKeyAPIError,
     PingFailedAPIError,
     ProtocolAPIError,
     ReadFailedAPIError,
@@ -666,7 +667,15 @@ class APIConnection:
             klass = SocketAPIError
         else:
             klass = UnhandledAPIConnectionError
-        new_exc = klass(f"Error while {action} connection: {err_str}")
+        msg = f"Error while {action} connection: {err_str}"
+        if isinstance(
+            self._fatal_exception, (BadNameAPIError, InvalidEncryptionKeyAPIError)
+        ):
+            # These carry the name received from the device and
+            # cannot be rebuilt from the message alone
+            new_exc = klass(msg, self._fatal_exception.received_name)
+        else:
+            new_exc = klass(msg)
         new_exc.__cause__ = cause or ex
         return new_exc
 
